@@ -3,7 +3,17 @@
 use crate::gen::*;
 
 pub fn coeff_vec(r: &mut Rng, len: usize, x: f64) -> (Vec<f64>, &'static str) {
-    match r.below(10) {
+    match r.below(13) {
+        10 => {
+            // the whole vector at a very small or very large common scale
+            let sc = 10f64.powf(r.uniform(-35.0, 35.0));
+            ((0..len).map(|_| r.mixed(2.0) * sc).collect(), "common_scale")
+        }
+        11 => {
+            let sc = 10f64.powf(r.uniform(-30.0, -16.0));
+            ((0..len).map(|_| if r.chance(0.2) { 0.0 } else { r.uniform(-9.0, 9.0) * sc }).collect(), "tiny_scale")
+        }
+        12 => ((0..len).map(|_| f64::MAX * r.uniform(0.02, 1.0) * r.sign()).collect(), "near_overflow"),
         0 => {
             let k = r.usize(0, len - 1);
             let c = if r.chance(0.5) { r.small_int(9).max(1.0) } else { r.mixed(6.0) };
